@@ -158,7 +158,7 @@ func runC19(c *core.Ctx) {
 			}
 		}
 		c.Exhaustive("encode grid size 1..64 x count 1..300")
-		for i := 0; i < 70000; i++ {
+		for i := 0; i < 600000; i++ {
 			r := c.RNG("pick", int64(i))
 			run(1+r.Intn(64), 1+r.Intn(300), 1+r.Intn(100), true)
 		}
